@@ -736,4 +736,496 @@ theorem inv_counter (c : Crypto) (cl : Client) (dec : Decoder) (known : Bool) (i
     Inv c { cl with counter := n } dec known :=
   ⟨inv.cfg, inv.cacheOk, inv.keysKnown, inv.keysUnknown⟩
 
+/-- a check-in: the request the client builds, and the decoder's reaction to it -/
+theorem emit_checkin (c : Crypto) (L : CryptoLaws c) {cfg : HttpCfg} {pg pp : Program} {es : List Enc}
+    (wf : WellFormedCfg cfg pg pp es) (hs : Dict) (cl : Client) (hcl : cl.cfg = cfg) (wc : WellFormedClient c cl)
+    (dec : Decoder) (known : Bool) (inv : Inv c cl dec known) (rr : C06.Rand) (rand : C04.Rand) :
+    ∃ r, emit c ⟨cl, es, hs⟩ (.checkin rr rand) =
+        .ok (.request r, ⟨{ cl with metadata := sentMetadata cl }, es, hs⟩, [.metadata (sentMetadata cl)]) ∧
+      r.method = cfg.getVerb ∧ r.uri = cl.getUri ∧
+      (iterRecoverMsg c dec none (.request r)).items = (if dec.hasPriv then [.metadata (sentMetadata cl)] else []) ∧
+      (iterRecoverMsg c dec none (.request r)).exc = none ∧
+      Inv c { cl with metadata := sentMetadata cl } (iterRecoverMsg c dec none (.request r)).dec (known || dec.hasPriv) ∧
+      (iterRecoverMsg c dec none (.request r)).dec.hasPriv = dec.hasPriv ∧
+      (iterRecoverMsg c dec none (.request r)).dec.verify = dec.verify := by
+  obtain ⟨r, blob, h1, h2, h3, h4, h5, h6⟩ := checkin_request c L wf cl hcl wc rr rand
+  have hn : normalise pg ⟨none, some blob, none⟩ =
+      ⟨(normalise pg ⟨none, some blob, none⟩).output, some blob, (normalise pg ⟨none, some blob, none⟩).id⟩ := by
+    have : (normalise pg ⟨none, some blob, none⟩).metadata = some blob := by
+      rw [normalise_metadata, wf.getMeta]; rfl
+    calc normalise pg ⟨none, some blob, none⟩
+        = ⟨(normalise pg ⟨none, some blob, none⟩).output, (normalise pg ⟨none, some blob, none⟩).metadata,
+            (normalise pg ⟨none, some blob, none⟩).id⟩ := rfl
+      _ = _ := by rw [this]
+  have hout : (normalise pg ⟨none, some blob, none⟩).output = none ∨ (normalise pg ⟨none, some blob, none⟩).output = some [] := by
+    rw [normalise_output]
+    cases built pg .output
+    · exact Or.inl rfl
+    · exact Or.inr rfl
+  rw [hn, ← hcl, ← inv.cfg] at h4
+  obtain ⟨s1, s2, s3, s4, s5⟩ := checkin_step c L cl dec known inv r blob _ _ h4 hout h5 h6
+  refine ⟨r, ?_, h2, h3, s1, s2, s3, s4, s5⟩
+  simp only [emit, h1, Except.map]
+
+theorem frames_response_single (ct sig : Bytes) (hs : sig.length = 16) :
+    frames false (some (ct ++ sig)) = ([⟨ct, sig⟩], none) := by
+  simp only [frames, Bool.false_eq_true, if_false, C05.server_frame_roundtrip ct sig hs]
+
+theorem frames_response_empty : frames false (some []) = ([], none) := rfl
+
+/-- a server response (a task or nothing): the body the reference team server sends, and the decoder's reaction -/
+theorem emit_task (c : Crypto) (L : CryptoLaws c) {cfg : HttpCfg} {pg pp : Program} {es : List Enc}
+    (wf : WellFormedCfg cfg pg pp es) (hs : Dict) (cl : Client) (hcl : cl.cfg = cfg) (wc : WellFormedClient c cl)
+    (dec : Decoder) (known : Bool) (inv : Inv c cl dec known) (t : Option Task) (rand : C04.Rand)
+    (ht : ∀ t', t = some t' → TaskOk t') :
+    ∃ body, emit c ⟨cl, es, hs⟩ (.task t rand) =
+        .ok (.response hs body, ⟨cl, es, hs⟩, (match t with | none => [] | some t' => [.task t'])) ∧
+      ((iterRecoverMsg c dec none (.response hs body)).items, (iterRecoverMsg c dec none (.response hs body)).exc) =
+        expected dec.hasPriv known (match t with | none => [] | some t' => [.task t']) (.task t rand) ∧
+      (iterRecoverMsg c dec none (.response hs body)).dec = dec := by
+  cases t with
+  | none =>
+    refine ⟨_, rfl, ?_⟩
+    have hrec : recoverStage dec.cfg (.response hs
+        (C04.Ref.encode [.block ⟨.output, es, .print⟩] rand ⟨some [], none, none⟩ C04.emptyReq).body) =
+        .ok ⟨some [], none, none⟩ := by
+      rw [inv.cfg, hcl]; exact server_body_recover wf [] rand hs
+    cases known with
+    | true =>
+      obtain ⟨a, b, d⟩ := packets_step_known c cl dec inv _ _ hrec rfl [] frames_response_empty [] ⟨rfl, rfl⟩
+      exact ⟨by rw [a, b]; rfl, d⟩
+    | false =>
+      obtain ⟨a, b, d⟩ := packets_step_unknown c cl dec inv _ _ hrec rfl [] frames_response_empty
+      exact ⟨by rw [a, b]; rfl, d⟩
+  | some t =>
+    have htk := ht t rfl
+    obtain ⟨k, hk, hkeys, hk16, hhk16⟩ := sessionKeys_facts c L cl
+    have hne : hk ≠ [] := by intro h0; rw [h0] at hhk16; cases hhk16
+    obtain ⟨pkt, e1, e2, e3⟩ := packet_roundtrip c L k hk hk16 hne dec.verify
+      (u32be t.epoch ++ (u32be t.totalSize ++ (u32be t.command ++ (u32be t.size ++ t.data))))
+    refine ⟨(C04.Ref.encode [.block ⟨.output, es, .print⟩] rand ⟨some (pkt.ciphertext ++ pkt.signature), none, none⟩
+      C04.emptyReq).body, ?_, ?_⟩
+    · simp only [emit, task_dumps_ok t htk, serverBody, wc.keys, hkeys, e1, ofPy, Except.map]
+    · have hrec : recoverStage dec.cfg (.response hs
+          (C04.Ref.encode [.block ⟨.output, es, .print⟩] rand ⟨some (pkt.ciphertext ++ pkt.signature), none, none⟩
+            C04.emptyReq).body) = .ok ⟨some (pkt.ciphertext ++ pkt.signature), none, none⟩ := by
+        rw [inv.cfg, hcl]; exact server_body_recover wf _ rand hs
+      have hfr := frames_response_single pkt.ciphertext pkt.signature e2
+      cases known with
+      | true =>
+        have hparse : parseItem false (C05.pad (u32be t.epoch ++ (u32be t.totalSize ++ (u32be t.command ++ (u32be t.size ++ t.data)))))
+            = .ok (.task t) := by
+          obtain ⟨kpad, hp1, _⟩ := C05.pad_spec (u32be t.epoch ++ (u32be t.totalSize ++ (u32be t.command ++ (u32be t.size ++ t.data))))
+          rw [hp1]
+          simp only [parseItem, Bool.false_eq_true, if_false, parseTask_dumps t _ htk, Except.map]
+        have hd := decodePackets_cons_ok c (sessionKeys c cl) dec.verify false ⟨pkt.ciphertext, pkt.signature⟩ [] _ _
+          (by rw [hkeys]; exact e3) hparse
+        obtain ⟨a, b, d⟩ := packets_step_known c cl dec inv _ _ hrec rfl _ hfr [.task t]
+          ⟨by show (decodePackets c (sessionKeys c cl) dec.verify false _).items = _; rw [hd.1]; rfl,
+           by show (decodePackets c (sessionKeys c cl) dec.verify false _).exc = _; rw [hd.2]; rfl⟩
+        exact ⟨by rw [a, b]; rfl, d⟩
+      | false =>
+        obtain ⟨a, b, d⟩ := packets_step_unknown c cl dec inv _ _ hrec rfl _ hfr
+        exact ⟨by rw [a, b]; rfl, d⟩
+
+/-- a POST with callbacks: the request the client builds, and the decoder's reaction -/
+theorem emit_callbacks (c : Crypto) (L : CryptoLaws c) {cfg : HttpCfg} {pg pp : Program} {es : List Enc}
+    (wf : WellFormedCfg cfg pg pp es) (hs : Dict) (cl : Client) (hcl : cl.cfg = cfg) (wc : WellFormedClient c cl)
+    (dec : Decoder) (known : Bool) (inv : Inv c cl dec known) (cbs : List (Nat × Bytes)) (rand : C04.Rand)
+    (hc : cl.counter + cbs.length < 2 ^ 32) (hcb : ∀ cb ∈ cbs, cb.1 < 2 ^ 32 ∧ cb.2.length + 64 < 2 ^ 32) :
+    ∃ r, emit c ⟨cl, es, hs⟩ (.callbacks cbs rand) =
+        .ok (.request r, ⟨{ cl with counter := cl.counter + cbs.length }, es, hs⟩,
+          (callbackPackets cl.counter cbs).map Item.callback) ∧
+      r.method = cfg.submitVerb ∧ r.uri = cfg.submitUri ∧
+      ((iterRecoverMsg c dec none (.request r)).items, (iterRecoverMsg c dec none (.request r)).exc) =
+        expected dec.hasPriv known ((callbackPackets cl.counter cbs).map Item.callback) (.callbacks cbs rand) ∧
+      (iterRecoverMsg c dec none (.request r)).dec = dec := by
+  obtain ⟨r, out, pkts, h1, h2, h3, h4, h5, h6, h7, h8⟩ := callback_request c L wf cl hcl wc cbs rand dec.verify hc hcb
+  refine ⟨r, by simp only [emit, h1, Except.map], h2, h3, ?_⟩
+  have hmeta : truthy (normalise pp ⟨some out, none, some (idBytes cl)⟩).metadata = false := by
+    rw [normalise_metadata]
+    cases built pp .metadata <;> rfl
+  have hout : (normalise pp ⟨some out, none, some (idBytes cl)⟩).output = some out := by
+    rw [normalise_output, wf.postOutput]; rfl
+  have hfr : frames (isRequest (.request r)) (normalise pp ⟨some out, none, some (idBytes cl)⟩).output = (pkts, none) := by
+    rw [hout]; exact h5
+  rw [← hcl, ← inv.cfg] at h4
+  cases known with
+  | true =>
+    obtain ⟨a, b, d⟩ := packets_step_known c cl dec inv _ _ h4 hmeta pkts hfr _ ⟨h7, h8⟩
+    exact ⟨by rw [a, b]; rfl, d⟩
+  | false =>
+    obtain ⟨a, b, d⟩ := packets_step_unknown c cl dec inv _ _ h4 hmeta pkts hfr
+    refine ⟨?_, d⟩
+    rw [a, b]
+    have hl := callbackPackets_length cl.counter cbs
+    cases cbs with
+    | nil =>
+      have : pkts = [] := by cases pkts with
+        | nil => rfl
+        | cons _ _ => simp at h6
+      simp [this, expected, callbackPackets]
+    | cons cb rest =>
+      have : pkts ≠ [] := by intro h0; rw [h0] at h6; simp at h6
+      obtain ⟨i, d⟩ := cb
+      simp [this, expected, callbackPackets]
+
+theorem emitAll_cons_ok (c : Crypto) (s s' : Sender) (ev : Event) (evs : List Event) (h : Http) (sent : List Item)
+    (msgs : List (Http × List Item)) (h1 : emit c s ev = .ok (h, s', sent)) (h2 : emitAll c s' evs = .ok msgs) :
+    emitAll c s (ev :: evs) = .ok ((h, sent) :: msgs) := by
+  simp only [emitAll, h1, h2, Except.map]
+
+theorem decodeAll_cons (c : Crypto) (dec : Decoder) (h : Http) (rest : List Input) :
+    (decodeAll c dec (.msg h :: rest)).1 =
+      iterRecoverMsg c dec none h :: (decodeAll c (iterRecoverMsg c dec none h).dec rest).1 := rfl
+
+/-- the history theorem at the level of message objects, by induction over the events -/
+theorem session_induction (c : Crypto) (L : CryptoLaws c) {cfg : HttpCfg} {pg pp : Program} {es : List Enc}
+    (wf : WellFormedCfg cfg pg pp es) (hs : Dict) :
+    ∀ (evs : List Event) (cl : Client) (dec : Decoder) (known : Bool),
+      cl.cfg = cfg → WellFormedClient c cl → Inv c cl dec known → EventsOk cl.counter evs →
+      ∃ msgs, emitAll c ⟨cl, es, hs⟩ evs = .ok msgs ∧
+        (decodeAll c dec (msgs.map fun m => Input.msg m.1)).1.map (fun o => (o.items, o.exc)) =
+          expectedTrace dec.hasPriv known evs msgs := by
+  intro evs
+  induction evs with
+  | nil => intro cl dec known _ _ _ _; exact ⟨[], rfl, rfl⟩
+  | cons ev evs ih =>
+    intro cl dec known hcl wc inv hok
+    obtain ⟨hev, hrest⟩ := hok
+    cases ev with
+    | checkin rr rand =>
+      obtain ⟨r, e1, _, _, s1, s2, s3, s4, _⟩ := emit_checkin c L wf hs cl hcl wc dec known inv rr rand
+      obtain ⟨msgs, m1, m2⟩ := ih { cl with metadata := sentMetadata cl } _ _ hcl (wellFormedClient_sent c cl wc) s3 hrest
+      refine ⟨_, emitAll_cons_ok c _ _ _ evs _ _ msgs e1 m1, ?_⟩
+      rw [List.map_cons, decodeAll_cons, List.map_cons, m2, s4]
+      simp only [expectedTrace, expected, knownAfter, s1, s2]
+    | task t rand =>
+      obtain ⟨body, e1, e2, e3⟩ := emit_task c L wf hs cl hcl wc dec known inv t rand
+        (fun t' ht' => by subst ht'; exact hev)
+      rw [← e3] at inv
+      obtain ⟨msgs, m1, m2⟩ := ih cl _ known hcl wc inv hrest
+      refine ⟨_, emitAll_cons_ok c _ _ _ evs _ _ msgs e1 m1, ?_⟩
+      rw [List.map_cons, decodeAll_cons, List.map_cons, m2, e3]
+      simp only [expectedTrace, knownAfter, e2]
+    | callbacks cbs rand =>
+      obtain ⟨r, e1, _, _, e2, e3⟩ := emit_callbacks c L wf hs cl hcl wc dec known inv cbs rand hev.1 hev.2
+      rw [← e3] at inv
+      obtain ⟨msgs, m1, m2⟩ := ih { cl with counter := cl.counter + cbs.length } _ known hcl
+        (wellFormedClient_counter c cl wc _) (inv_counter c cl _ known inv _) hrest
+      refine ⟨_, emitAll_cons_ok c _ _ _ evs _ _ msgs e1 m1, ?_⟩
+      rw [List.map_cons, decodeAll_cons, List.map_cons, m2, e3]
+      simp only [expectedTrace, knownAfter, e2]
+
+/-! ### the three kinds of sufficient key material give a decoder satisfying the invariant -/
+
+theorem mkDecoder_rsa (c : Crypto) (cl : Client) (verify : Bool) :
+    ∃ dec, mkDecoder c cl.cfg { priv := some true, verify := verify } true false = .ok dec ∧
+      Inv c cl dec false ∧ dec.hasPriv = true ∧ dec.verify = verify :=
+  ⟨_, rfl, ⟨rfl, fun _ _ h => (by cases h), fun h => (by cases h), fun _ => ⟨rfl, rfl, rfl⟩⟩, rfl, rfl⟩
+
+theorem truthy_none : truthy none = false := rfl
+
+theorem any_length_ne_false (b : Bytes) (h : b.length = 16) : (some b).any (fun x => x.length != 16) = false := by
+  simp [h]
+
+theorem mkDecoder_keys (c : Crypto) (L : CryptoLaws c) (cl : Client) (verify : Bool) (priv : Bool) :
+    ∃ k hk dec, sessionKeys c cl = ⟨some k, some hk, Gen.C2Struct.defaultAesIv⟩ ∧
+      mkDecoder c cl.cfg { aesKey := some k, hmacKey := some hk, priv := if priv then some true else none, verify := verify }
+        true false = .ok dec ∧
+      Inv c cl dec true ∧ dec.hasPriv = priv ∧ dec.verify = verify := by
+  obtain ⟨k, hk, hkeys, h1, h2⟩ := sessionKeys_facts c L cl
+  have t1 : truthy (some k) = true := truthy_some_ne (by intro h0; rw [h0] at h1; cases h1)
+  refine ⟨k, hk, ⟨cl.cfg, ⟨some k, some hk, Gen.C2Struct.defaultAesIv⟩, priv, verify, []⟩, hkeys, ?_,
+    ⟨rfl, fun _ _ h => (by cases h), fun _ => hkeys.symm, fun h => (by cases h)⟩, rfl, rfl⟩
+  cases priv <;>
+    simp [mkDecoder, t1, any_length_ne_false k h1, any_length_ne_false hk h2, truthy_none]
+
+theorem mkDecoder_rand (c : Crypto) (L : CryptoLaws c) (cl : Client) (hlen : cl.metadata.aes_rand.length = 16)
+    (verify : Bool) (priv : Bool) :
+    ∃ dec, mkDecoder c cl.cfg { aesRand := some cl.metadata.aes_rand, priv := if priv then some true else none, verify := verify }
+        true false = .ok dec ∧
+      Inv c cl dec true ∧ dec.hasPriv = priv ∧ dec.verify = verify := by
+  obtain ⟨k, hk, hkeys, h1, h2⟩ := sessionKeys_facts c L cl
+  have t1 : truthy (some cl.metadata.aes_rand) = true := truthy_some_ne (by intro h0; rw [h0] at hlen; cases hlen)
+  have hk' : (C06.deriveKeys c.asym cl.metadata.aes_rand).1 = k ∧ (C06.deriveKeys c.asym cl.metadata.aes_rand).2 = hk := by
+    simp only [sessionKeys, derivedKeys] at hkeys
+    injection hkeys with a b _
+    injection a with a
+    injection b with b
+    exact ⟨a, b⟩
+  refine ⟨⟨cl.cfg, ⟨some k, some hk, Gen.C2Struct.defaultAesIv⟩, priv, verify, []⟩, ?_,
+    ⟨rfl, fun _ _ h => (by cases h), fun _ => hkeys.symm, fun h => (by cases h)⟩, rfl, rfl⟩
+  cases priv <;>
+    simp [mkDecoder, t1, hk'.1, hk'.2, any_length_ne_false k h1, any_length_ne_false hk h2, truthy_none]
+
+/-! ### the wire form of what the client transforms produce: encoder outputs -/
+
+/-- CR-freeness of the output of an encoder chain, whatever the payload: tracks whether the data is known to be CR-free
+(`base64`, `base64url`, `netbios`, `netbiosu` make it so, `mask` destroys it, prepend/append keep it iff their string is
+CR-free).  This is the "printable placement" condition needed for header terminations. -/
+def cleanGo : Bool → List Enc → Bool
+  | clean, [] => clean
+  | clean, .append a :: es => cleanGo (clean && C16.noCR a.toBytes) es
+  | clean, .prepend a :: es => cleanGo (clean && C16.noCR a.toBytes) es
+  | _, .base64 :: es => cleanGo true es
+  | _, .base64url :: es => cleanGo true es
+  | _, .netbios :: es => cleanGo true es
+  | _, .netbiosu :: es => cleanGo true es
+  | _, .mask :: es => cleanGo false es
+
+def cleanOut (es : List Enc) : Bool := cleanGo false es
+
+theorem noCR_append (a b : Bytes) : C16.noCR (a ++ b) = (C16.noCR a && C16.noCR b) := by
+  simp [C16.noCR, List.all_append]
+
+theorem alpha_ne_cr : ∀ n, n < 64 → ∀ u, C04.Ref.alpha u n ≠ 13 := by decide
+
+theorem noCR_b64chars (url : Bool) (x : Bytes) : C16.noCR (C04.Ref.b64chars url x) = true := by
+  rw [C16.noCR_iff]
+  intro b hb
+  simp only [C04.Ref.b64chars, List.mem_map] at hb
+  obtain ⟨s, hs, rfl⟩ := hb
+  exact alpha_ne_cr s (C04.sextets_lt x s hs) url
+
+theorem noCR_replicate61 (k : Nat) : C16.noCR (List.replicate k 61) = true := by
+  rw [C16.noCR_iff]
+  intro b hb
+  rw [List.mem_replicate] at hb
+  rw [hb.2]; decide
+
+theorem ofNat_ne_cr (n : Nat) (h1 : 14 ≤ n) (h2 : n < 256) : UInt8.ofNat n ≠ 13 := by
+  intro h
+  have := congrArg UInt8.toNat h
+  simp at this
+  omega
+
+theorem noCR_nbEnc (base : Nat) (hb1 : 14 ≤ base) (hb2 : base ≤ 240) (x : Bytes) : C16.noCR (C04.Ref.nbEnc base x) = true := by
+  rw [C16.noCR_iff]
+  intro b hb
+  simp only [C04.Ref.nbEnc, List.mem_flatMap, List.mem_cons, List.not_mem_nil, or_false] at hb
+  obtain ⟨c, _, rfl | rfl⟩ := hb
+  · have := c.toNat_lt; exact ofNat_ne_cr _ (by omega) (by omega)
+  · have := c.toNat_lt; exact ofNat_ne_cr _ (by omega) (by omega)
+
+/-- one statement: the data is CR-free afterwards if the tracking says so -/
+theorem enc1_clean (e : Enc) (x w : Bytes) (clean : Bool) (h : C04.Enc1 e x w) (hx : clean = true → C16.noCR x = true) :
+    ∀ es, cleanGo clean (e :: es) = true → ∃ clean', cleanGo clean (e :: es) = cleanGo clean' es ∧
+      (clean' = true → C16.noCR w = true) := by
+  intro es _
+  rcases h with ⟨r, rfl⟩ | ⟨rfl, rfl⟩
+  · cases e with
+    | append a =>
+      refine ⟨clean && C16.noCR a.toBytes, rfl, fun hc => ?_⟩
+      simp only [Bool.and_eq_true] at hc
+      simp only [C04.Ref.encStep, noCR_append, hx hc.1, hc.2, Bool.and_self]
+    | prepend a =>
+      refine ⟨clean && C16.noCR a.toBytes, rfl, fun hc => ?_⟩
+      simp only [Bool.and_eq_true] at hc
+      simp only [C04.Ref.encStep, noCR_append, hx hc.1, hc.2, Bool.and_self]
+    | base64 =>
+      refine ⟨true, rfl, fun _ => ?_⟩
+      simp only [C04.Ref.encStep, C04.Ref.b64enc, noCR_append, noCR_b64chars, noCR_replicate61, Bool.and_self]
+    | base64url => exact ⟨true, rfl, fun _ => noCR_b64chars true x⟩
+    | netbios => exact ⟨true, rfl, fun _ => noCR_nbEnc 97 (by omega) (by omega) x⟩
+    | netbiosu => exact ⟨true, rfl, fun _ => noCR_nbEnc 65 (by omega) (by omega) x⟩
+    | mask => exact ⟨false, rfl, fun h => by cases h⟩
+  · refine ⟨true, rfl, fun _ => ?_⟩
+    simp only [C04.Ref.b64urlenc, noCR_append, noCR_b64chars, noCR_replicate61, Bool.and_self]
+
+theorem encN_clean (es : List Enc) (x v : Bytes) (clean : Bool) (h : C04.EncN es x v)
+    (hx : clean = true → C16.noCR x = true) (hc : cleanGo clean es = true) : C16.noCR v = true := by
+  induction es generalizing x clean with
+  | nil => simp only [C04.EncN] at h; subst h; exact hx hc
+  | cons e es ih =>
+    obtain ⟨w, h1, h2⟩ := h
+    obtain ⟨clean', e1, e2⟩ := enc1_clean e x w clean h1 hx es hc
+    exact ih w clean' h2 e2 (by rw [← e1]; exact hc)
+
+theorem sextets_ne_nil (x : Bytes) (h : x ≠ []) : C04.Ref.sextets x ≠ [] := by
+  match x, h with
+  | [_], _ => simp [C04.Ref.sextets]
+  | [_, _], _ => simp [C04.Ref.sextets]
+  | _ :: _ :: _ :: _, _ => simp [C04.Ref.sextets]
+
+theorem enc1_nonempty (e : Enc) (x w : Bytes) (h : C04.Enc1 e x w) (hx : x ≠ []) : w ≠ [] := by
+  have hs := sextets_ne_nil x hx
+  rcases h with ⟨r, rfl⟩ | ⟨rfl, rfl⟩
+  · cases e with
+    | append a => simp [C04.Ref.encStep, hx]
+    | prepend a => simp [C04.Ref.encStep, hx]
+    | base64 => simp [C04.Ref.encStep, C04.Ref.b64enc, C04.Ref.b64chars, hs]
+    | base64url => simp [C04.Ref.encStep, C04.Ref.b64urlenc, C04.Ref.b64chars, hs]
+    | netbios =>
+      cases x with
+      | nil => exact absurd rfl hx
+      | cons a t => simp [C04.Ref.encStep, C04.Ref.nbEnc]
+    | netbiosu =>
+      cases x with
+      | nil => exact absurd rfl hx
+      | cons a t => simp [C04.Ref.encStep, C04.Ref.nbEnc]
+    | mask => simp [C04.Ref.encStep, C04.Ref.key32]
+  · simp [C04.Ref.b64urlenc, C04.Ref.b64chars, hs]
+
+theorem encN_nonempty (es : List Enc) (x v : Bytes) (h : C04.EncN es x v) (hx : x ≠ []) : v ≠ [] := by
+  induction es generalizing x with
+  | nil => simp only [C04.EncN] at h; subst h; exact hx
+  | cons e es ih =>
+    obtain ⟨w, h1, h2⟩ := h
+    exact ih w h2 (enc1_nonempty e x w h1 hx)
+
+/-! ### the wire form of what the client transforms produce: dictionaries -/
+
+theorem set_keys (d : Dict) (k v : Bytes) :
+    (d.set k v).map Prod.fst = if k ∈ d.map Prod.fst then d.map Prod.fst else d.map Prod.fst ++ [k] := by
+  induction d with
+  | nil => simp [C04.Dict.set]
+  | cons kv rest ih =>
+    obtain ⟨k', v'⟩ := kv
+    by_cases h : k' = k
+    · subst h; simp [C04.Dict.set]
+    · have h' : ¬ k = k' := fun e => h e.symm
+      simp only [C04.Dict.set, h, if_false, List.map_cons, ih, List.mem_cons, h', false_or]
+      split <;> simp
+
+theorem set_keys_nodup (d : Dict) (k v : Bytes) (h : (d.map Prod.fst).Nodup) : ((d.set k v).map Prod.fst).Nodup := by
+  rw [set_keys]
+  split
+  · exact h
+  · rename_i hk
+    exact List.nodup_append.2 ⟨h, by simp, fun a ha b hb => by
+      rw [List.mem_singleton] at hb; subst hb; exact fun e => hk (e ▸ ha)⟩
+
+theorem mem_set (d : Dict) (k v : Bytes) (p : Bytes × Bytes) (h : p ∈ d.set k v) : p = (k, v) ∨ p ∈ d := by
+  induction d with
+  | nil => simp only [C04.Dict.set, List.mem_singleton] at h; exact Or.inl h
+  | cons kv rest ih =>
+    obtain ⟨k', v'⟩ := kv
+    by_cases hk : k' = k
+    · subst hk
+      simp only [C04.Dict.set, if_true, List.mem_cons] at h
+      rcases h with h | h
+      · exact Or.inl h
+      · exact Or.inr (by simp [h])
+    · simp only [C04.Dict.set, hk, if_false, List.mem_cons] at h
+      rcases h with h | h
+      · exact Or.inr (by simp [h])
+      · rcases ih h with h | h
+        · exact Or.inl h
+        · exact Or.inr (by simp [h])
+
+/-- what C16's request round trip needs of the two dictionaries -/
+structure DictsOk (params headers : Dict) : Prop where
+  pk : (params.map Prod.fst).Nodup
+  pv : ∀ p ∈ params, p.2 ≠ []
+  hk : (headers.map Prod.fst).Nodup
+  hv : ∀ h ∈ headers, C16.wellFormedHeader h = true
+
+theorem dictsOk_setParam {ps hs : Dict} (h : DictsOk ps hs) (k v : Bytes) (hv : v ≠ []) : DictsOk (ps.set k v) hs :=
+  ⟨set_keys_nodup ps k v h.pk, fun p hp => by
+    rcases mem_set ps k v p hp with rfl | hp
+    · exact hv
+    · exact h.pv p hp, h.hk, h.hv⟩
+
+theorem dictsOk_setHeader {ps hs : Dict} (h : DictsOk ps hs) (k v : Bytes) (hw : C16.wellFormedHeader (k, v) = true) :
+    DictsOk ps (hs.set k v) :=
+  ⟨h.pk, h.pv, set_keys_nodup hs k v h.hk, fun p hp => by
+    rcases mem_set hs k v p hp with rfl | hp
+    · exact hw
+    · exact h.hv p hp⟩
+
+/-- which field a block of this program may carry -/
+def itemWireOk (allowed : Field → Bool) : C04.Ref.Item → Bool
+  | .deco (.header n v) => C16.wellFormedHeader (n, v)
+  | .deco (.hostheader n v) => C16.wellFormedHeader (n, v)
+  | .deco (.parameter _ v) => !v.isEmpty
+  | .block b =>
+    allowed b.field &&
+    match b.term with
+    | .header k => C16.wellFormedHeader (k, []) && cleanOut b.encs
+    | .parameter _ => true
+    | .print => true
+    | .uriAppend => false
+
+/-- Printable placements: static headers are well-formed header lines, static parameters have non-empty values, a block
+terminating in `header` has a well-formed header name and an encoder chain with CR-free output, no uri-append. -/
+def progWireOk (allowed : Field → Bool) (p : Program) : Bool := p.all (itemWireOk allowed)
+
+theorem wellFormedHeader_value (k v : Bytes) (hk : C16.wellFormedHeader (k, []) = true) (hv : C16.noCR v = true) :
+    C16.wellFormedHeader (k, v) = true := by
+  simp only [C16.wellFormedHeader, Bool.and_eq_true] at hk ⊢
+  exact ⟨hk.1, hv⟩
+
+/-- a block run in one piece: the data placed is an admissible encoding of the payload -/
+theorem block_run (c2 : C2Data) (b : C04.Ref.Block) (s : C04.TSt) :
+    ∃ v r', C04.EncN b.encs (C04.payload c2 b.field) v ∧
+      C04.runT c2 b.toSteps s = C04.tstep c2 (.term b.term) { s with data := v, rand := r' } := by
+  obtain ⟨v, r', hc, hN⟩ := C04.encChain_spec b.encs s.rand (C04.payload c2 b.field)
+  refine ⟨v, r', hN, ?_⟩
+  have h0 : C04.runT c2 (Step.build (some b.field) :: b.encs.map Step.enc) s
+      = .ok { s with data := v, rand := r' } := by
+    rw [C04.runT]
+    show (Except.ok ({ s with data := C04.payload c2 b.field } : C04.TSt)).bind _ = _
+    simp only [Except.bind]
+    rw [C04.runT_encs]
+    simp [hc, Except.map]
+  rw [C04.Ref.Block.toSteps, C04.runT_append, h0]
+  simp only [Except.bind]
+  rw [C04.runT_single]
+
+theorem transform_dictsOk (c2 : C2Data) (allowed : Field → Bool) (p : Program) (hv : valid p = true)
+    (hw : progWireOk allowed p = true) (hpay : ∀ f, allowed f = true → C04.payload c2 f ≠ []) :
+    ∀ (s s' : C04.TSt), DictsOk s.params s.headers → C04.runT c2 (compile p) s = .ok s' → DictsOk s'.params s'.headers := by
+  induction p with
+  | nil => intro s s' hs h; simp only [compile, C04.runT, Except.ok.injEq] at h; subst h; exact hs
+  | cons it rest ih =>
+    intro s s' hs h
+    simp only [progWireOk, List.all_cons, Bool.and_eq_true] at hw
+    obtain ⟨hit, hrest⟩ := hw
+    cases it with
+    | deco d =>
+      obtain ⟨hn, hv2⟩ := C04.valid_cons_deco hv
+      simp only [compile, C04.runT] at h
+      cases d with
+      | header n v =>
+        have hp := C04.partition_name 58 [32] n v (by simpa [C04.Ref.Deco.nameOk] using hn)
+        simp only [List.cons_append, List.nil_append] at hp
+        simp only [C04.Ref.Deco.toStep, C04.tstep, List.append_assoc, List.cons_append, List.nil_append, hp, Except.bind] at h
+        exact ih hv2 hrest _ s' (dictsOk_setHeader hs n v hit) h
+      | hostheader n v =>
+        have hp := C04.partition_name 58 [32] n v (by simpa [C04.Ref.Deco.nameOk] using hn)
+        simp only [List.cons_append, List.nil_append] at hp
+        simp only [C04.Ref.Deco.toStep, C04.tstep, List.append_assoc, List.cons_append, List.nil_append, hp, Except.bind] at h
+        exact ih hv2 hrest _ s' (dictsOk_setHeader hs n v hit) h
+      | parameter n v =>
+        have hp := C04.partition_name 61 [] n v (by simpa [C04.Ref.Deco.nameOk] using hn)
+        simp only [List.nil_append] at hp
+        simp only [C04.Ref.Deco.toStep, C04.tstep, List.append_assoc, List.cons_append, List.nil_append, hp, Except.bind] at h
+        have hne : v ≠ [] := by
+          intro h0; subst h0; simp [itemWireOk] at hit
+        exact ih hv2 hrest _ s' (dictsOk_setParam hs n v hne) h
+    | block b =>
+      obtain ⟨_, _, hv2⟩ := C04.valid_cons_block hv
+      obtain ⟨v, r', hN, hrun⟩ := block_run c2 b s
+      simp only [compile, C04.runT_append, hrun] at h
+      simp only [itemWireOk, Bool.and_eq_true] at hit
+      obtain ⟨hal, hterm⟩ := hit
+      have hvne : v ≠ [] := encN_nonempty b.encs _ v hN (hpay _ hal)
+      cases hb : b.term with
+      | print =>
+        rw [hb] at h
+        simp only [C04.tstep, Except.bind] at h
+        exact ih hv2 hrest _ s' (by exact hs) h
+      | uriAppend => rw [hb] at hterm; cases hterm
+      | header k =>
+        rw [hb] at h hterm
+        simp only [Bool.and_eq_true] at hterm
+        simp only [C04.tstep, Except.bind] at h
+        have hclean := encN_clean b.encs _ v false hN (fun hf => by cases hf) hterm.2
+        exact ih hv2 hrest _ s' (dictsOk_setHeader hs k v (wellFormedHeader_value k v hterm.1 hclean)) h
+      | parameter k =>
+        rw [hb] at h
+        simp only [C04.tstep, Except.bind] at h
+        exact ih hv2 hrest _ s' (dictsOk_setParam hs k v hvne) h
+
 end C07
